@@ -1,4 +1,62 @@
-From KS Require Import lib.Base lib.Strings model.MetaStore.
+(* C17 — In-memory and etcd metadata stores behave the same.
+   Only statements closed by [exact]; proofs live in proofs/MetaStoreBisim.v.
+   Both models are of the code with fixes/C16-*.patch and fixes/C17-store-parity.patch.
+
+   Status: PARTIAL.  The full statement ([C17_statement]: every operation sequence,
+   every name) is refuted for names the etcd key layout cannot represent (open finding
+   etcd-name-with-slash-or-empty).  On the complement the bisimulation is machine-checked
+   for the fragment [op_in_fragment] (12 of the 16 Store operations); DeleteTopic,
+   UpdateTopicConfig, ListConsumerOffsets and ListConsumerGroups are covered by the
+   differential correspondence check (same generated sequences on both real stores and
+   both models) but their preservation proof is not done. *)
+From Coq Require Import String.
+From KS Require Import lib.Base lib.Strings model.MetaStore proofs.MetaStoreProofs proofs.MetaStoreKeys proofs.MetaStoreBisim.
 Open Scope Z_scope.
-Example C17_nonvacuous : True.
-Proof. exact I. Qed.
+
+Definition C17_statement : Prop :=
+  forall brokers ops, snd (im_run (im_new brokers) ops) = snd (et_run (et_new brokers) ops).
+
+Theorem C17_refuted : ~ C17_statement.
+Proof.
+  intros H. specialize (H 1 [OCommit (lit "g/1") (lit "orders") 0 3 []; OListOffsets]).
+  vm_compute in H. discriminate.
+Qed.
+Print Assumptions C17_refuted.
+
+(* the relation holds initially and every operation of the fragment preserves it and
+   answers the same in both stores *)
+Theorem C17_bisimulation_step : forall im et o,
+  R im et -> op_in_fragment o ->
+  snd (im_step im o) = snd (et_step et o) /\ R (fst (im_step im o)) (fst (et_step et o)).
+Proof. exact step_preserves. Qed.
+Print Assumptions C17_bisimulation_step.
+
+Theorem C17_bisimulation : forall brokers ops,
+  Forall op_in_fragment ops ->
+  snd (im_run (im_new brokers) ops) = snd (et_run (et_new brokers) ops).
+Proof. intros b ops H. exact (proj1 (run_bisim ops _ _ (R_init b) H)). Qed.
+Print Assumptions C17_bisimulation.
+
+(* the formerly diverging shapes, now equal on the models of the fixed code, including
+   the operations outside the proven fragment (by computation on concrete histories) *)
+Example C17_nonvacuous :
+  let g := mkGroup (lit "g1") (lit "stable") (lit "consumer") (lit "range") (lit "m0") 3 45000
+             [(lit "m0", mkMember (lit "c") (lit "/h") (lit "x") [(lit "orders", [0; 1])] [lit "orders"] 20000)] in
+  let ops1 := [OCreateTopic (lit "orders") 3 1; OCommit (lit "g1") (lit "orders") 0 7 (lit "m"); OPutGroup g;
+               OFetchGroup (lit "g1"); OFetchCfg (lit "orders"); OCreatePartitions (lit "orders") 5;
+               OFetchCfg (lit "orders"); OUpdateOffsets (lit "orders") 4 9; ONextOffset (lit "orders") 4;
+               OLookupOffset (lit "g1") (lit "orders") 0; OMetadata []] in
+  let ops2 := ops1 ++ [OUpdateCfg (mkCfg (lit "orders") 0 1 1000 (-1) 0 []); OCreatePartitions (lit "orders") 6;
+                       OFetchCfg (lit "orders"); OListOffsets; OListGroups; ODeleteTopic (lit "orders");
+                       OFetchOffset (lit "g1") (lit "orders") 0; OListOffsets; OCreateTopic (lit "orders") 1 1;
+                       ONextOffset (lit "orders") 0] in
+  Forall op_in_fragment ops1 /\
+  nth 3 (snd (im_run (im_new 3) ops1)) (RErr EOther) = RGroup (Some g) /\
+  nth 8 (snd (im_run (im_new 3) ops1)) (RErr EOther) = ROffset ENone 10 /\
+  snd (im_run (im_new 3) ops2) = snd (et_run (et_new 3) ops2) /\
+  nth 17 (snd (et_run (et_new 3) ops2)) (RErr EOther) = RFetched 0 [].
+Proof.
+  cbv zeta. split.
+  - repeat constructor; cbn; try (intros H; discriminate); intros H; vm_compute in H; intuition discriminate.
+  - vm_compute. repeat split; reflexivity.
+Qed.
